@@ -9,7 +9,29 @@ FAULTS = ["bad_version", "err_unsupported_ver", "close_now", "trunc_close", "eod
           "timeout", "trunc_err", "spurious_reset", "stop"]
 
 
+# Told stories: the data expires while the connection stays up (the purge runs in the "no data" / "no incremental update"
+# branches, not in CONNECTING), and the next answer on the same connection comes in the other protocol version.
+STORIES = [
+    ({"refresh": 1, "expire": 600, "retry": 600, "ver": 1, "ivals": (1, 600, 600), "mode": 0},
+     ["truthful", "err_nodata", "other_version_answer", "truthful"]),
+    ({"refresh": 700, "expire": 600, "retry": 600, "ver": 1, "ivals": (700, 600, 600), "mode": 0},
+     ["truthful", "spurious_reset", "other_version_answer", "truthful"]),
+    ({"refresh": 1, "expire": 600, "retry": 600, "ver": 1, "ivals": (1, 600, 600), "mode": 0},
+     ["truthful", "err_nodata", "err_nodata", "other_version_answer"]),
+    ({"refresh": 1, "expire": 600, "retry": 600, "ver": 0, "ivals": (1, 600, 600), "mode": 0},
+     ["truthful", "err_nodata", "other_version_answer", "truthful"]),
+    ({"refresh": 1, "expire": 600, "retry": 600, "ver": 1, "ivals": (1, 600, 600), "mode": 0},
+     ["truthful", "err_nodata", "bad_version"]),
+]
+_told = [0]
+
+
 def gen(rnd):
+    k = _told[0]
+    _told[0] += 1
+    if k < len(STORIES) or rnd.random() < 0.05:
+        cfg, plan = STORIES[k] if k < len(STORIES) else rnd.choice(STORIES)
+        return R.build_conversation(rnd, cfg=dict(cfg), plan=plan, chunking=None if k < len(STORIES) else rnd.choice([None, 1, "rand"]))
     return R.build_conversation(rnd, nex=rnd.randint(3, 9), fault_p=0.6, faults=FAULTS,
                                 cfg={"ver": rnd.choice([0, 1, 1]), "retry": rnd.choice([1, 600])})
 
